@@ -679,6 +679,7 @@ pub fn run_one(scn: u64, s: &Sched) -> OneResult {
             faults_left: cfg_u64(r, "faults", 0),
             windows: r.get("windows").and_then(|v| v.as_bool()).unwrap_or(true),
             mode: cfg_str(&s.cfg, "mode", "always").to_string(),
+            far: r.get("far").and_then(|v| v.as_bool()).unwrap_or(false),
         });
     }
     st.run_steps(None);
@@ -713,6 +714,7 @@ pub struct Gen {
     faults_left: u64,
     windows: bool,
     mode: String,
+    far: bool,
 }
 
 impl Gen {
@@ -734,7 +736,11 @@ impl Gen {
         if self.next_c <= self.ncalls && !handles.is_empty() && !in_win {
             let dls = [0i64, 1, 2, 3, 5, 8, 10_000, 10_000, 10_000];
             let now = st.clock.now_ms() as i64;
-            let dl = dls[rng.gen_range(0..dls.len())];
+            let dl = if self.far && rng.gen_range(0..4) == 0 {
+                70_000_000_000 // about 2.2 years: beyond the timer queue's range
+            } else {
+                dls[rng.gen_range(0..dls.len())]
+            };
             let dl = if dl < 10_000 && rng.gen_bool(0.7) { now + dl } else { dl };
             let h = handles[rng.gen_range(0..handles.len())];
             ch.push((14, json!({"a":"Call","c":self.next_c,"dl":dl,"h":h,"tr":100 + self.next_c,
@@ -824,7 +830,8 @@ pub fn random_sched(i: u64, rng: &mut StdRng, a: &Args) -> Sched {
                      "credits": rng.gen_range(0..=2u64),
                      "random": {"seed": rng.gen::<u32>(), "len": rng.gen_range(8..60u64),
                                 "calls": rng.gen_range(1..=a.opt_u64("calls", 5)),
-                                "faults": faults, "windows": a.opt_u64("windows", 1) == 1}});
+                                "faults": faults, "windows": a.opt_u64("windows", 1) == 1,
+                                "far": a.opt_u64("far", 0) == 1}});
     Sched {
         id: format!("r{}", i),
         cfg,
